@@ -92,6 +92,41 @@ def _const_like(e: ast.expr) -> bool:
     return False
 
 
+def _strip_tail(body, kind) -> None:
+    """A bare `return` (or `continue`) in tail position of the function (loop body) does nothing: drop it, also at the end of
+    the branches of a trailing if."""
+    while body and isinstance(body[-1], kind) and getattr(body[-1], "value", None) is None and len(body) > 1:
+        body.pop()
+    if body and isinstance(body[-1], ast.If):
+        for b in (body[-1].body, body[-1].orelse):
+            _strip_tail(b, kind)
+            if len(b) == 1 and isinstance(b[0], kind) and getattr(b[0], "value", None) is None and b is body[-1].orelse:
+                b.clear()
+
+
+def _tail_loop_returns(body) -> None:
+    """In a loop (without else) that is the last thing the function does, a bare `return` is a `break`."""
+    if not body:
+        return
+    last = body[-1]
+    if isinstance(last, ast.With):
+        _tail_loop_returns(last.body)
+    elif isinstance(last, ast.If):
+        _tail_loop_returns(last.body)
+        _tail_loop_returns(last.orelse)
+    elif isinstance(last, (ast.For, ast.While)) and not last.orelse:
+        def rec(stmts):
+            for k, st in enumerate(stmts):
+                if isinstance(st, ast.Return) and st.value is None:
+                    stmts[k] = ast.copy_location(ast.Break(), st)
+                elif isinstance(st, (ast.If, ast.With, ast.Try)):
+                    for fld in ("body", "orelse", "finalbody"):
+                        rec(getattr(st, fld, []) or [])
+                    for h in getattr(st, "handlers", []) or []:
+                        rec(h.body)
+        rec(last.body)
+
+
 class _Canonical(ast.NodeTransformer):
     """Semantics-preserving normal form applied to every module before any rule looks at it, so that the rules do not
     depend on spellings that do not matter:
@@ -113,6 +148,18 @@ class _Canonical(ast.NodeTransformer):
                 f = st.value.func
                 if isinstance(f, ast.Attribute) and isinstance(f.value, ast.Name) and f.value.id in ("logger", "logging") \
                         and f.attr in ("debug", "info", "warning", "warn", "error", "exception", "critical", "log"):
+                    continue
+            if isinstance(st, ast.Expr) and isinstance(st.value, ast.Constant):
+                continue                    # docstrings and stray literals
+            if isinstance(st, ast.Expr) and (isinstance(st.value, ast.Name) or (isinstance(st.value, ast.Tuple) and all(isinstance(x, ast.Name) for x in st.value.elts))):
+                continue                    # an expression statement that only names locals does nothing
+            if isinstance(st, ast.Assign) and len(st.targets) == 1 and isinstance(st.targets[0], ast.Tuple) and isinstance(st.value, ast.Tuple) \
+                    and len(st.targets[0].elts) == len(st.value.elts) and all(isinstance(x, ast.Name) for x in st.targets[0].elts + st.value.elts):
+                # `a, b, c = (x, b, c)`: the self-assignments go; what is left is sequential when no target is also a source
+                pairs = [(t, v) for t, v in zip(st.targets[0].elts, st.value.elts) if t.id != v.id]
+                if not ({t.id for t, _ in pairs} & {v.id for _, v in pairs}) and len({t.id for t, _ in pairs}) == len(pairs):
+                    for t, v in pairs:
+                        out.append(ast.copy_location(ast.Assign(targets=[t], value=v), st))
                     continue
             out.append(st)
         if not out:
@@ -149,6 +196,11 @@ class _Canonical(ast.NodeTransformer):
                 return ast.copy_location(ast.Assign(targets=[n.target], value=n.value), n)
         for fld in ("body",):
             node.body = [_Ann().visit(st) if not isinstance(st, (ast.FunctionDef, ast.ClassDef)) else st for st in node.body]
+        _strip_tail(node.body, ast.Return)
+        _tail_loop_returns(node.body)
+        for lp in ast.walk(node):
+            if isinstance(lp, (ast.For, ast.While)):
+                _strip_tail(lp.body, ast.Continue)
         return node
 
     def visit_BinOp(self, node):
@@ -173,6 +225,73 @@ class _Canonical(ast.NodeTransformer):
                 and not (len(node.orelse) == 1 and isinstance(node.orelse[0], ast.If)):
             node.test = node.test.operand
             node.body, node.orelse = node.orelse, node.body
+        return node
+
+    _NEG = {ast.Eq: ast.NotEq, ast.NotEq: ast.Eq, ast.Is: ast.IsNot, ast.IsNot: ast.Is, ast.In: ast.NotIn, ast.NotIn: ast.In}
+
+    def visit_UnaryOp(self, node):
+        self.generic_visit(node)
+        # `not a == b` -> `a != b` (and is/in likewise; not for the order comparisons, which need not be total)
+        if isinstance(node.op, ast.Not) and isinstance(node.operand, ast.Compare) and len(node.operand.ops) == 1 and type(node.operand.ops[0]) in self._NEG:
+            c = node.operand
+            return ast.copy_location(ast.Compare(left=c.left, ops=[self._NEG[type(c.ops[0])]()], comparators=c.comparators), node)
+        return node
+
+    def visit_BoolOp(self, node):
+        self.generic_visit(node)
+        # isinstance(o, A) or isinstance(o, B)  ->  isinstance(o, (A, B))
+        if isinstance(node.op, ast.Or):
+            def isi(v):
+                return isinstance(v, ast.Call) and isinstance(v.func, ast.Name) and v.func.id == "isinstance" and len(v.args) == 2 and not v.keywords
+            out = []
+            for v in node.values:
+                if out and isi(v) and isi(out[-1]) and ast.unparse(v.args[0]) == ast.unparse(out[-1].args[0]):
+                    prev = out[-1]
+                    a = prev.args[1].elts if isinstance(prev.args[1], ast.Tuple) else [prev.args[1]]
+                    b = v.args[1].elts if isinstance(v.args[1], ast.Tuple) else [v.args[1]]
+                    out[-1] = ast.copy_location(ast.Call(func=prev.func, args=[prev.args[0], ast.Tuple(elts=list(a) + list(b), ctx=ast.Load())], keywords=[]), prev)
+                else:
+                    out.append(v)
+            if len(out) == 1:
+                return out[0]
+            node.values = out
+        return node
+
+    def visit_ClassDef(self, node):
+        self._classes = getattr(self, "_classes", []) + [node.name]
+        try:
+            return self.generic_visit(node)
+        finally:
+            self._classes = self._classes[:-1]
+
+    def visit_Call(self, node):
+        self.generic_visit(node)
+        # f(*(a, b)) -> f(a, b)
+        if any(isinstance(a, ast.Starred) and isinstance(a.value, (ast.Tuple, ast.List)) for a in node.args):
+            args = []
+            for a in node.args:
+                if isinstance(a, ast.Starred) and isinstance(a.value, (ast.Tuple, ast.List)) and not any(isinstance(x, ast.Starred) for x in a.value.elts):
+                    args += a.value.elts
+                else:
+                    args.append(a)
+            node.args = args
+        # list() / dict() / tuple() / bytes() / str() without arguments are the empty literals
+        if isinstance(node.func, ast.Name) and not node.args and not node.keywords and node.func.id in ("list", "dict", "tuple", "bytes", "str"):
+            lit = {"list": ast.List(elts=[], ctx=ast.Load()), "dict": ast.Dict(keys=[], values=[]), "tuple": ast.Tuple(elts=[], ctx=ast.Load()),
+                   "bytes": ast.Constant(value=b""), "str": ast.Constant(value="")}[node.func.id]
+            return ast.copy_location(lit, node)
+        # super(C, self) inside class C -> super()
+        cl = getattr(self, "_classes", [])
+        if isinstance(node.func, ast.Name) and node.func.id == "super" and len(node.args) == 2 and not node.keywords and cl \
+                and isinstance(node.args[0], ast.Name) and node.args[0].id == cl[-1] and isinstance(node.args[1], ast.Name) and node.args[1].id == "self":
+            node.args = []
+        return node
+
+    def visit_ExceptHandler(self, node):
+        node = self.generic_visit(node)
+        # `except E as name:` with the name never read in the handler binds nothing anybody sees
+        if node.name and not any(isinstance(x, ast.Name) and x.id == node.name for st in node.body for x in ast.walk(st)):
+            node.name = None
         return node
 
     def visit_Compare(self, node):
@@ -441,7 +560,296 @@ def _impure_calls(e: ast.AST):
     return [x for x in ast.walk(e) if isinstance(x, ast.Call) and not (isinstance(x.func, ast.Name) and x.func.id in _PURE_BUILTINS)]
 
 
-def _inline_fresh_temps(fn: ast.FunctionDef, known: set) -> None:
+_PURE_METHODS = {"tobytes", "ljust", "rjust", "decode", "encode", "hex", "upper", "lower", "strip", "rstrip", "lstrip", "replace", "startswith", "endswith",
+                 "to_bytes", "get", "items", "keys", "values", "bit_length", "islower", "isupper", "pack", "unpack", "unpack_from", "format", "join", "split",
+                 "index", "count", "find", "copy", "group", "match", "search", "sub", "has_section", "has_option", "options", "sections", "isdigit"}
+
+
+def _stable_rhs(fn, blk, i, rhs, uses, params) -> bool:
+    """May every later read of the local assigned at blk[i] be replaced by `rhs`?  Yes when rhs is built from literals,
+    constants (capitalised names), pure built-ins and operators over plain names that nothing after blk[i] writes or mutates;
+    reads of self.<attr> are allowed when the function never stores that attribute and calls no method of self after blk[i]
+    (calls on other objects are taken not to reach back into self).  All uses must lie in the statements that follow in the
+    same block, outside nested functions."""
+    names, attrs = set(), set()
+
+    def ok(e) -> bool:
+        if isinstance(e, ast.Constant):
+            return True
+        if isinstance(e, ast.Name):
+            if not (e.id.isupper() and len(e.id) > 1):
+                names.add(e.id)
+            return True
+        if isinstance(e, ast.Attribute):
+            if _const_like(e) and _pure_chain(e):
+                return True
+            if isinstance(e.value, ast.Name) and e.value.id == "self":
+                attrs.add(e.attr)
+                return True
+            return False
+        if isinstance(e, ast.BinOp):
+            return ok(e.left) and ok(e.right)
+        if isinstance(e, ast.UnaryOp):
+            return ok(e.operand)
+        if isinstance(e, ast.BoolOp):
+            return all(ok(v) for v in e.values)
+        if isinstance(e, ast.Compare):
+            return ok(e.left) and all(ok(c) for c in e.comparators)
+        if isinstance(e, ast.IfExp):
+            return ok(e.test) and ok(e.body) and ok(e.orelse)
+        if isinstance(e, ast.Tuple):
+            return all(ok(x) for x in e.elts)
+        if isinstance(e, ast.Call):
+            return isinstance(e.func, ast.Name) and e.func.id in _PURE_BUILTINS and e.func.id not in ("super", "bytearray", "list") and not e.keywords and all(ok(a) for a in e.args)
+        return False
+    if not ok(rhs):
+        return False
+    after = blk[i + 1:]
+    inner = [x for st_ in after for x in ast.walk(st_)]
+    if not all(any(u is x for x in inner) for u in uses):
+        return False
+    # only what lies between the assignment and the last statement with a use can interfere
+    last = max(k for k, st_ in enumerate(after) if any(u is x for u in uses for x in ast.walk(st_)))
+    inner = [x for st_ in after[:last + 1] for x in ast.walk(st_)]
+    tail = after[last]
+    if isinstance(tail, (ast.Assign, ast.AugAssign)) and not any(u is x for u in uses for t_ in (tail.targets if isinstance(tail, ast.Assign) else [tail.target]) for x in ast.walk(t_)):
+        # the right-hand side of the last statement is evaluated before its target is stored
+        skip = {id(x) for t_ in (tail.targets if isinstance(tail, ast.Assign) else [tail.target]) if isinstance(t_, ast.Attribute) for x in [t_]}
+        inner = [x for x in inner if id(x) not in skip]
+    for x in inner:
+        if isinstance(x, (ast.FunctionDef, ast.Lambda)) and any(any(u is y for y in ast.walk(x)) for u in uses):
+            return False
+    # enclosing loops: a write anywhere in the loop could reach the uses of a later iteration only through blk[i] again (the
+    # assignment is re-evaluated first), so only what follows in this block matters
+    for x in inner:
+        root = None
+        if isinstance(x, ast.Name) and isinstance(x.ctx, (ast.Store, ast.Del)):
+            root = x.id
+        elif isinstance(x, (ast.Subscript, ast.Attribute)) and isinstance(x.ctx, (ast.Store, ast.Del)):
+            r = x.value
+            while isinstance(r, (ast.Subscript, ast.Attribute)):
+                r = r.value
+            root = r.id if isinstance(r, ast.Name) else None
+            if isinstance(x, ast.Attribute) and x.attr in attrs:
+                return False
+        elif isinstance(x, ast.Call) and isinstance(x.func, ast.Attribute):
+            r = x.func.value
+            if isinstance(r, ast.Name) and r.id in names and x.func.attr not in _PURE_METHODS:
+                return False
+            if attrs and isinstance(r, ast.Name) and r.id == "self":
+                return False
+            if attrs and isinstance(r, ast.Call) and isinstance(r.func, ast.Name) and r.func.id == "super":
+                return False
+        if root is not None and root in names:
+            return False
+    return True
+
+
+def _head_line(st: ast.stmt) -> str:
+    return ast.unparse(st).splitlines()[0].strip()
+
+
+def _substitute_toward_reference(fn: ast.FunctionDef, ref_fn: dict) -> None:
+    """Forward substitution guided by the reference: a read of a local whose (pure, still valid) defining expression, put in
+    its place, makes the statement read exactly as one of the reference function does is replaced by that expression."""
+    import copy as _copy
+    ref_lines = {l.strip() for l in ref_fn.get("src", "").splitlines()}
+    params = {p.arg for p in fn.args.posonlyargs + fn.args.args + fn.args.kwonlyargs}
+    for _ in range(20):
+        changed = False
+        for blk in _fn_blocks(fn):
+            for i, st in enumerate(blk):
+                if not (isinstance(st, ast.Assign) and len(st.targets) == 1 and isinstance(st.targets[0], ast.Name)):
+                    continue
+                t = st.targets[0].id
+                if isinstance(st.value, (ast.Name, ast.Constant)):
+                    continue
+                for later in blk[i + 1:]:
+                    if any(isinstance(x, ast.Name) and x.id == t and isinstance(x.ctx, ast.Store) for x in ast.walk(later)):
+                        break
+                    heads = []
+                    for sub in ast.walk(later):
+                        if isinstance(sub, ast.stmt) and not isinstance(sub, (ast.FunctionDef, ast.ClassDef)):
+                            scope = sub.test if isinstance(sub, (ast.If, ast.While)) else (sub if isinstance(sub, _SIMPLE_STMTS) else None)
+                            if scope is None:
+                                continue
+                            uses = [x for x in ast.walk(scope) if isinstance(x, ast.Name) and x.id == t and isinstance(x.ctx, ast.Load)]
+                            if uses and _head_line(sub) not in ref_lines:
+                                heads.append((sub, scope, uses))
+                    for sub, scope, uses in heads:
+                        trial = _copy.deepcopy(sub)
+
+                        class _R(ast.NodeTransformer):
+                            def visit_Name(self, node):
+                                if node.id == t and isinstance(node.ctx, ast.Load):
+                                    return ast.copy_location(_copy.deepcopy(st.value), node)
+                                return node
+                        if isinstance(trial, (ast.If, ast.While)):
+                            trial.test = _R().visit(trial.test)
+                        else:
+                            trial = _R().visit(trial)
+                        trial = _Canonical().visit(trial)
+                        if _head_line(trial) in ref_lines and _stable_rhs(fn, blk, i, st.value, uses, params):
+                            for u in uses:
+                                _replace_in(fn, u, _copy.deepcopy(st.value))
+                            changed = True
+                            break
+                    if changed:
+                        break
+                if changed:
+                    break
+            if changed:
+                break
+        if not changed:
+            return
+        _Canonical().visit(fn)
+
+
+def _dissolve_setdefault_alias(fn: ast.FunctionDef, known: set) -> None:
+    """`t = D.setdefault(k, V)` + uses of t   ->   `D.setdefault(k, V)` + uses of `D[k]`: after the call D[k] is the object the
+    call returned, and stays it as long as nothing in between stores into D or rebinds D or k."""
+    import copy as _copy
+    for blk in _fn_blocks(fn):
+        for i, st in enumerate(blk):
+            if not (isinstance(st, ast.Assign) and len(st.targets) == 1 and isinstance(st.targets[0], ast.Name) and st.targets[0].id not in known
+                    and isinstance(st.value, ast.Call) and isinstance(st.value.func, ast.Attribute) and st.value.func.attr == "setdefault"
+                    and len(st.value.args) == 2 and not st.value.keywords and _pure_chain(st.value.func.value)
+                    and (isinstance(st.value.args[0], ast.Constant) or _pure_chain(st.value.args[0]))):
+                continue
+            t, D, k = st.targets[0].id, st.value.func.value, st.value.args[0]
+            alln = [x for x in ast.walk(fn) if isinstance(x, ast.Name) and x.id == t]
+            if sum(isinstance(x.ctx, ast.Store) for x in alln) != 1:
+                continue
+            uses = [x for x in alln if isinstance(x.ctx, ast.Load)]
+            rest = [x for later in blk[i + 1:] for x in ast.walk(later)]
+            if not uses or not all(any(u is x for x in rest) for u in uses):
+                continue
+            dtxt = ast.unparse(D)
+            roots = {x.id for x in ast.walk(D) if isinstance(x, ast.Name)} | {x.id for x in ast.walk(k) if isinstance(x, ast.Name)}
+            bad = False
+            for x in rest:
+                if isinstance(x, ast.Name) and isinstance(x.ctx, (ast.Store, ast.Del)) and x.id in roots:
+                    bad = True
+                if isinstance(x, (ast.Subscript, ast.Attribute)) and isinstance(x.ctx, (ast.Store, ast.Del)) and ast.unparse(x.value) == dtxt:
+                    bad = True
+                if isinstance(x, ast.Attribute) and isinstance(x.ctx, (ast.Store, ast.Del)) and ast.unparse(x) == dtxt:
+                    bad = True
+                if isinstance(x, ast.Call) and isinstance(x.func, ast.Attribute) and ast.unparse(x.func.value) == dtxt and x.func.attr not in ("get", "items", "keys", "values"):
+                    bad = True
+                if isinstance(x, (ast.FunctionDef, ast.Lambda)):
+                    bad = True
+            if bad:
+                continue
+            for u in uses:
+                _replace_in(fn, u, ast.Subscript(value=_copy.deepcopy(D), slice=_copy.deepcopy(k), ctx=ast.Load()))
+            blk[i] = ast.copy_location(ast.Expr(value=st.value), st)
+            ast.fix_missing_locations(fn)
+            return _dissolve_setdefault_alias(fn, known)
+
+
+def _extract_toward_reference(fn: ast.FunctionDef, ref_fn: dict, known: set) -> None:
+    """The inverse of inlining a temporary: the reference function has `x = E` for a local x that the current function does
+    not mention at all, and E occurs exactly once in the current function, in a simple statement or an if test, with nothing
+    that calls evaluated before it there: the assignment is put back in front of that statement."""
+    try:
+        rtree = ast.parse(ref_fn.get("src", "") or "pass")
+    except SyntaxError:
+        return
+    cand = {}
+    for st in ast.walk(rtree):
+        if isinstance(st, ast.Assign) and len(st.targets) == 1 and isinstance(st.targets[0], ast.Name) and st.targets[0].id in known \
+                and not isinstance(st.value, (ast.Name, ast.Constant)):
+            cand.setdefault(st.targets[0].id, []).append(st.value)
+    present = {x.id for x in ast.walk(fn) if isinstance(x, ast.Name)}
+    for x, values in cand.items():
+        if x in present or len(values) != 1:
+            continue
+        # x must be read exactly once in the reference (otherwise one occurrence of E cannot stand for all of them)
+        if sum(1 for n in ast.walk(rtree) if isinstance(n, ast.Name) and n.id == x and isinstance(n.ctx, ast.Load)) != 1:
+            continue
+        txt = ast.unparse(values[0])
+        hits = [n for n in ast.walk(fn) if isinstance(n, ast.expr) and not isinstance(n, (ast.Name, ast.Constant)) and ast.unparse(n) == txt]
+        if len(hits) != 1:
+            continue
+        hit = hits[0]
+        for blk in _fn_blocks(fn):
+            for i, st in enumerate(blk):
+                scope = st.test if isinstance(st, ast.If) else (st if isinstance(st, _SIMPLE_STMTS) else None)
+                if scope is None or not any(n is hit for n in ast.walk(scope)):
+                    continue
+                if any(isinstance(n, (ast.Lambda, ast.ListComp, ast.SetComp, ast.DictComp, ast.GeneratorExp, ast.NamedExpr)) for n in ast.walk(scope)):
+                    continue
+                events, reached = _eval_events(scope, hit)
+                cond = [n for n in ast.walk(scope) if (isinstance(n, ast.IfExp) and any(y is hit for b in (n.body, n.orelse) for y in ast.walk(b)))
+                        or (isinstance(n, ast.BoolOp) and any(y is hit for v in n.values[1:] for y in ast.walk(v)))]
+                if not reached or cond or any(k == "call" for k, _e in events):
+                    continue
+                _replace_in(st if not isinstance(st, ast.If) else st, hit, ast.Name(id=x, ctx=ast.Load()))
+                blk.insert(i, ast.copy_location(ast.Assign(targets=[ast.Name(id=x, ctx=ast.Store())], value=hit), st))
+                ast.fix_missing_locations(fn)
+                return _extract_toward_reference(fn, ref_fn, known)
+
+
+def _delay_snapshot_mutation(fn: ast.FunctionDef, known: set) -> None:
+    """`t = self.a` / `self.a ^= K` / ... uses of t ...   ->   `t = self.a` / ... uses of t ... / `self.a ^= K`: an update of
+    an attribute whose old value was saved in a fresh local moves behind the last use of that local, when nothing in between
+    reads or writes the attribute, calls anything but pure built-ins, or leaves the block.  (The saved copy then is the
+    attribute itself and is inlined by the next pass.)"""
+    import copy as _copy
+    for blk in _fn_blocks(fn):
+        for i, st in enumerate(blk):
+            if not (isinstance(st, ast.Assign) and len(st.targets) == 1 and isinstance(st.targets[0], ast.Name) and st.targets[0].id not in known
+                    and isinstance(st.value, ast.Attribute) and isinstance(st.value.value, ast.Name) and st.value.value.id == "self"):
+                continue
+            t, attr = st.targets[0].id, st.value.attr
+            if sum(1 for x in ast.walk(fn) if isinstance(x, ast.Name) and x.id == t and isinstance(x.ctx, ast.Store)) != 1:
+                continue
+            m = None
+            for k in range(i + 1, len(blk)):
+                tgt = blk[k].target if isinstance(blk[k], ast.AugAssign) else (blk[k].targets[0] if isinstance(blk[k], ast.Assign) and len(blk[k].targets) == 1 else None)
+                if tgt is not None and ast.unparse(tgt) == f"self.{attr}":
+                    m = k
+                    break
+                if any(isinstance(x, ast.Attribute) and x.attr == attr for x in ast.walk(blk[k])) or _impure_calls(blk[k]):
+                    break
+            if m is None:
+                continue
+            uses = [k for k in range(m + 1, len(blk)) if any(isinstance(x, ast.Name) and x.id == t for x in ast.walk(blk[k]))]
+            if not uses or any(isinstance(x, ast.Name) and x.id == t and isinstance(x.ctx, ast.Load) for k in range(i + 1, m) for x in ast.walk(blk[k])) and False:
+                continue
+            u = uses[-1]
+            mut = blk[m]
+            mut_names = {x.id for x in ast.walk(mut) if isinstance(x, ast.Name)} - {"self", t}
+            ok = True
+            for k in range(m + 1, u + 1):
+                for x in ast.walk(blk[k]):
+                    if isinstance(x, ast.Attribute) and x.attr == attr:
+                        ok = False
+                    if isinstance(x, (ast.Return, ast.Raise, ast.Break, ast.Continue, ast.Try, ast.With, ast.FunctionDef, ast.Lambda, ast.Yield, ast.Await)):
+                        ok = False
+                    if isinstance(x, ast.Name) and isinstance(x.ctx, (ast.Store, ast.Del)) and x.id in mut_names:
+                        ok = False
+                if _impure_calls(blk[k]) and any(not (isinstance(c.func, ast.Attribute) and c.func.attr in _PURE_METHODS and isinstance(c.func.value, ast.Name) and c.func.value.id != "self")
+                                                for c in _impure_calls(blk[k])):
+                    ok = False
+            if not ok or _impure_calls(mut):
+                continue
+            # reads of t inside the update itself (`self.a = t ^ K`) are the attribute
+            class _T(ast.NodeTransformer):
+                def visit_Name(self, node):
+                    if node.id == t and isinstance(node.ctx, ast.Load):
+                        return ast.copy_location(_copy.deepcopy(st.value), node)
+                    return node
+            mut = _T().visit(mut)
+            if isinstance(mut, ast.Assign) and isinstance(mut.value, ast.BinOp) and ast.unparse(mut.value.left) == f"self.{attr}":
+                mut = ast.copy_location(ast.AugAssign(target=mut.targets[0], op=mut.value.op, value=mut.value.right), mut)
+            del blk[m]
+            blk.insert(u, mut)
+            ast.fix_missing_locations(fn)
+            return _delay_snapshot_mutation(fn, known)
+
+
+def _inline_fresh_temps(fn: ast.FunctionDef, known: set, multi: bool = True) -> None:
     """A local that the reference tree does not have, assigned once and read once in a later statement of the same block,
     is replaced by its expression (the inverse of "extract variable").  Applied only to names absent from the recorded
     local names, so the unchanged tree is never rewritten.  Semantics-preserving: the statements in between are themselves
@@ -466,7 +874,7 @@ def _inline_fresh_temps(fn: ast.FunctionDef, known: set) -> None:
                     continue
                 t = st.targets[0].id
                 if t not in known and t not in params and len(stores.get(t, [])) == 1 and len(loads.get(t, [])) > 1 and _pure_chain(st.value) \
-                        and isinstance(st.value, ast.Attribute) and blk is fn.body:
+                        and isinstance(st.value, ast.Attribute):
                     # alias of an attribute chain, read several times: every read is the chain itself as long as nothing in
                     # the function stores to that attribute or rebinds the chain's root (a callee rebinding the caller's
                     # attribute behind its back is assumed not to happen)
@@ -486,6 +894,20 @@ def _inline_fresh_temps(fn: ast.FunctionDef, known: set) -> None:
                     if not clash and later:
                         for u in loads[t]:
                             _replace_in(fn, u, _copy.deepcopy(chain))
+                        del blk[i]
+                        changed = True
+                        break
+                if multi and t not in known and t not in params and loads.get(t):
+                    # a name for a value that cannot change between its computation and its uses (pure operations on names
+                    # that are not written again): every use it reaches in the rest of the block is the expression itself
+                    rest_nodes = [x for later_st in blk[i + 1:] for x in ast.walk(later_st)]
+                    here = [u for u in loads[t] if any(u is x for x in rest_nodes)]
+                    restored = any(x is not st.targets[0] and any(x is y for y in rest_nodes) for x in stores.get(t, []))
+                    sole = len(stores.get(t, [])) == 1 and len(here) == len(loads[t])
+                    leaves = isinstance(blk[-1], (ast.Return, ast.Raise)) and not any(isinstance(x, (ast.Break, ast.Continue)) for x in rest_nodes)
+                    if here and not restored and (sole or leaves) and _stable_rhs(fn, blk, i, st.value, here, params):
+                        for u in here:
+                            _replace_in(fn, u, _copy.deepcopy(st.value))
                         del blk[i]
                         changed = True
                         break
@@ -634,19 +1056,44 @@ def canonicalise(tree: ast.Module, rel: str = "") -> ast.Module:
                         q += ".setter"
                     if ref is not None and q in ref.get("funcs", {}):
                         _rename_params(n, ref["funcs"][q].get("params", []))
-                    if q in names:
-                        _rename_locals(n, [(s, list(ns)) for s, ns in names[q]])
                     known = {x for _s, ns in names.get(q, []) for x in ns}
                     # locals of enclosing/nested functions are known names as well (closures)
                     for qq, sh in names.items():
                         if qq.startswith(q + ".") or q.startswith(qq + "."):
                             known |= {x for _s, ns in sh for x in ns}
-                    _inline_fresh_temps(n, known)
-                    if ref is not None and q in ref.get("funcs", {}):
-                        from . import canon
-                        canon.normalise_expression_forms(n, ref["funcs"][q])
-                        canon.normalise_control_flow(n, ref["funcs"][q].get("tests", []), ref["funcs"][q].get("forms", {}))
+                    before = None
+                    rf = ref["funcs"].get(q) if ref is not None else None
+
+                    def rename():
+                        if q in names:
+                            _rename_locals(n, [(s, list(ns)) for s, ns in names[q]])
+
+                    def shape():
+                        if rf is not None:
+                            from . import canon
+                            canon.normalise_expression_forms(n, rf)
+                            canon.hoist_common_tail(n, rf)
+                            canon.normalise_control_flow(n, rf.get("tests", []), rf.get("forms", {}))
+                            canon.hoist_common_tail(n, rf)
+                    for _round in range(3):
+                        rename()
+                        shape()
+                        rename()
+                        _delay_snapshot_mutation(n, known)
+                        _dissolve_setdefault_alias(n, known)
+                        _inline_fresh_temps(n, known, multi=False)
+                        shape()
+                        rename()
                         _inline_fresh_temps(n, known)
+                        _Canonical().visit(n)          # the stage-1 forms again for what inlining has put together
+                        if rf is not None:
+                            _substitute_toward_reference(n, rf)
+                            _extract_toward_reference(n, rf, known)
+                        shape()
+                        now = ast.dump(n)
+                        if now == before:
+                            break
+                        before = now
                     walk(n, q + ".")
         walk(tree, "")
     ast.fix_missing_locations(tree)
